@@ -29,6 +29,8 @@ extern "C" __attribute__((noinline)) int u_pgm_e2e(const KEY *d, size_t n, const
         unsigned char snap[SNAP_MAX]; size_t offs[16];
         size_t sb = idx.segsize(), nl = idx.levels_offsets.size();
         size_t n0 = idx.n; KEY fk0 = idx.first_key;
+        unsigned char obj0[sizeof(IdxA)];                 // every byte of the index object itself (any member, present or future)
+        std::memcpy(obj0, static_cast<const void *>(&idx), sizeof(IdxA));
         if (sb > SNAP_MAX || nl > 16) return 8;
         for (size_t i = 0; i < sb; ++i) snap[i] = idx.segbytes()[i];
         for (size_t i = 0; i < nl; ++i) offs[i] = idx.levels_offsets[i];
@@ -45,6 +47,11 @@ extern "C" __attribute__((noinline)) int u_pgm_e2e(const KEY *d, size_t n, const
         auto r2 = idx.search(*q);
         bool same = r2.pos == r.pos && r2.lo == r.lo && r2.hi == r.hi && idx.n == n0 && idx.first_key == fk0
                     && idx.segsize() == sb && idx.levels_offsets.size() == nl;
+        {
+            unsigned char obj1[sizeof(IdxA)];
+            std::memcpy(obj1, static_cast<const void *>(&idx), sizeof(IdxA));
+            for (size_t i = 0; i < sizeof(IdxA) && same; ++i) same = obj0[i] == obj1[i];
+        }
         for (size_t i = 0; i < sb && same; ++i) same = snap[i] == idx.segbytes()[i];
         for (size_t i = 0; i < nl && same; ++i) same = offs[i] == idx.levels_offsets[i];
         out[6] = same;
